@@ -2,9 +2,11 @@
 //! tablegen-lsp code. It renders abstract behaviours, runs the real code, and projects results
 //! back to the abstract vocabulary. It contains no oracle of its own.
 
+mod ast_walk_gen;
 mod memfs;
 mod parse_obs;
 mod pool;
+mod tree_obs;
 mod util;
 mod ws_obs;
 
@@ -16,6 +18,7 @@ fn handle(item: &Value) -> Value {
     match util::jstr(item, "kind") {
         "parse" => parse_obs::parse_item(item),
         "lex" => parse_obs::lex_item(item),
+        "tree" => tree_obs::tree_item(item),
         "analysis" => ws_obs::analysis_item(item),
         other => json!({"id": item.get("id"), "outcome": "ToolError", "msg": format!("unknown kind {other}")}),
     }
